@@ -173,3 +173,75 @@ func VerifHarness_C10_O1b() {
 	}
 	verifReach("end")
 }
+
+// C10/O6 — bounded system level: three real cores gossip; a join request of a
+// fourth peer (signed by that peer) is submitted to a chosen node at a chosen
+// moment and goes through consensus; any one exchange of a window may be
+// dropped or truncated (symbolic schedule bits).  At the end all nodes report
+// THE SAME validator-set history, and it is the genesis set changed exactly at
+// round-received(block carrying the accepted receipt) + 6 by adding that peer;
+// no node has any other entry.
+func VerifHarness_C10_O6() {
+	s := verifNewSys(3)
+	joiner := verifKey(3)
+	jp := verifPeer(3)
+	itx := hg.NewInternalTransactionJoin(*jp)
+	ih, _ := itx.Body.Hash()
+	itx.Signature = verifSignature(joiner, ih, true)
+	at := []int{4, 10}[verifChoice("joinSubmittedAt", 2)]
+	target := verifChoice("joinSubmittedTo", 3)
+	perturbed := false
+	steps := 96
+	for st := 0; st < steps; st++ {
+		to := st % 3
+		from := (to + 1 + (st/3)%2) % 3
+		if st == at {
+			s.nodes[target].c.addInternalTransaction(itx)
+		}
+		limit := -1
+		if !perturbed && st >= 5 && st < 17 {
+			if verifNondetBool(fmt.Sprintf("drop%d", st)) {
+				perturbed = true
+				continue
+			}
+			if verifNondetBool(fmt.Sprintf("truncate%d", st)) {
+				perturbed = true
+				limit = 1
+			}
+		}
+		if err := s.pull(from, to, limit); err != nil {
+			panic(fmt.Sprintf("step %d: %v", st, err))
+		}
+	}
+	s.checkInvariants(0)
+	// the block that carried the request, as node 0 delivered it
+	rr := -1
+	for _, b := range s.nodes[0].blocks {
+		if len(b.InternalTransactions()) > 0 {
+			rr = b.RoundReceived()
+			verifAssert("request-committed-once", len(b.InternalTransactions()) == 1 && len(b.InternalTransactionReceipts()) <= 1)
+		}
+	}
+	if rr < 0 {
+		verifAssume(false) // the request was not committed within the bound for this schedule
+	}
+	for i, nd := range s.nodes {
+		all, err := nd.c.hg.Store.GetAllPeerSets()
+		verifAssert(fmt.Sprintf("node%d-history-has-exactly-genesis-and-one-change", i), err == nil && len(all) == 2)
+		gen, okg := all[0]
+		verifAssert(fmt.Sprintf("node%d-genesis-unchanged", i), okg && len(gen) == 3)
+		chg, okc := all[rr+6]
+		verifAssert(fmt.Sprintf("node%d-change-effective-at-round-received-plus-6", i), okc)
+		if okc {
+			verifAssert(fmt.Sprintf("node%d-new-set-is-genesis-plus-the-joiner", i), len(chg) == 4 && chg[0].PubKeyHex == s.peers[0].PubKeyHex && chg[1].PubKeyHex == s.peers[1].PubKeyHex && chg[2].PubKeyHex == s.peers[2].PubKeyHex && chg[3].PubKeyHex == jp.PubKeyHex)
+		}
+		// lookups before / at the effective round
+		before, _ := nd.c.hg.Store.GetPeerSet(rr + 5)
+		atSet, _ := nd.c.hg.Store.GetPeerSet(rr + 6)
+		verifAssert(fmt.Sprintf("node%d-old-set-until-the-effective-round", i), before != nil && len(before.Peers) == 3 && atSet != nil && len(atSet.Peers) == 4)
+	}
+	if s.nodes[0].c.hg.Store.LastRound() >= rr+6 {
+		verifReach("history-ran-past-the-effective-round")
+	}
+	verifReach("end")
+}
